@@ -56,6 +56,39 @@ def engineOp (op : String) (j : Json) : Except String Json := do
       want ts s (load rated Pe)
       sp := sp ++ [(s, ratJ (speciesRate (tbl ts s).fn rated Pe))]
     return obj (out ++ [("species", obj sp)])
+  | "engine.modelled" =>
+    -- the same run point with every curve computed by the model from its points (`Pchip.curve`): no oracle
+    let rated ← jRat (← fld j "rated")
+    let ptsOf (name : String) : Except String (List (Rat × Rat)) := do
+      let pj ← fld (← fld j "points") name
+      let pts ← (← jArr pj).mapM fun p => do
+        match ← jRats p with
+        | [a, b] => pure (a, b)
+        | _ => throw "expected [load, value]"
+      match Feems.Pchip.curve pts 0 with
+      | .error e => throw e
+      | .ok _ => pure pts
+    let mut Pe := P
+    match fldD j "generator_rated" Json.null with
+    | .null => pure ()
+    | g => do
+      let rg ← jRat g
+      let η := etaOfPoints (← ptsOf "eta_gen")
+      Pe := gensetEnginePower η (invTable η rg) rg P
+    match fldD j "gearbox_rated" Json.null with
+    | .null => pure ()
+    | g => do
+      let rgb ← jRat g
+      Pe := gearedEnginePower (etaOfPoints (← ptsOf "eta_gb")) rgb P
+    let fuel := engineFuel (etaOfPoints (← ptsOf "bsfc")) rated Pe
+    let mut out := [("engine_power", ratJ Pe), ("load", ratJ (load rated Pe)), ("fuel", ratJ fuel)]
+    if (fldD j "dual" (Json.bool false)) == Json.bool true then
+      out := out ++ [("pilot", ratJ (pilotFuel (etaOfPoints (← ptsOf "bpsfc")) rated Pe))]
+    let species ← (← jArr (fldD j "species" (Json.arr #[]))).mapM jStr
+    let mut sp : List (String × Json) := []
+    for s in species do
+      sp := sp ++ [(s, ratJ (speciesRate (etaOfPoints (← ptsOf s)) rated Pe))]
+    return obj (out ++ [("species", obj sp)])
   | "engine.fuel_cell_system" =>
     let rc ← jRat (← fld j "rated_conv"); let rcell ← jRat (← fld j "rated_cell")
     let lhv ← jRat (← fld j "lhv"); let N ← jNat (← fld j "modules")
